@@ -9,7 +9,10 @@ vars == <<v_case>>
 DirectedQuick == {<<1000, 24, 5, 3, 4>>, <<2047, 64, 3, 5, 8>>, <<999, 40, 7, 3, 8>>, <<500, 21, 4, 4, 3>>}
 DirectedThorough == DirectedQuick \cup
    {<<10000, 128, 9, 7, 8>>, <<8191, 96, 11, 5, 4>>, <<4001, 33, 13, 11, 3>>, <<30000, 1024, 3, 5, 8>>,
-    <<2500, 16, 255, 2, 1>>, <<20011, 200, 6, 9, 8>>}
+    <<2500, 4, 255, 2, 1>>, <<20011, 200, 6, 9, 8>>}
+
+\* the property quantifies over Z <= ceil(F/T), N <= T/Al, Al | T: directed shapes must be inside that domain
+ASSUME DirectedValid == \A d \in DirectedThorough : d[3] <= (d[1] + d[2] - 1) \div d[2] /\ d[2] % d[5] = 0 /\ d[4] <= d[2] \div d[5]
 
 Data(i) == (i * 37 + (i \div 251) * 7 + 11) % 256
 Divisors(n) == {d \in 1..n : n % d = 0}
